@@ -84,3 +84,38 @@ Proof.
   rewrite (serial_opens k (c ++ [fresh_store n o]) n o (fresh_store n o)); [reflexivity| |reflexivity].
   apply (sr_get_app_absent c (fresh_store n o)). exact H.
 Qed.
+
+(* ---------------------------------------------------------------- commit with conflict retries *)
+
+Lemma rollback_unknown_id : forall c l, txn_rollback unknown c l = c.
+Proof. reflexivity. Qed.
+
+Lemma present_removed : forall c n, present (sr_remove c n) n = false.
+Proof. intros. unfold present. rewrite sr_get_remove. reflexivity. Qed.
+
+Lemma commit_loop_failed_no_store : forall rs c n,
+  Forall round_state_ok rs -> snd (commit_loop rs c [n]) = false ->
+  sr_get (fst (commit_loop rs c [n])) n = None /\
+  (forall m, m <> n -> sr_get (fst (commit_loop rs c [n])) m = sr_get c m).
+Proof.
+  intros rs c n HF. destruct rs as [|r rest]; cbn [commit_loop]; intros Hs.
+  - rewrite rollback_removes_created; [|discriminate|cbv; discriminate]. cbn [fst].
+    split; [apply sr_get_remove|intros m Hm; apply sr_get_remove_other; exact Hm].
+  - inversion HF as [|x l Hr Hrest]; subst. destruct r as [|s|s ok]; cbn [fst snd] in *.
+    + discriminate.
+    + destruct Hr as [H1 H2]. rewrite rollback_removes_created by assumption.
+      split; [apply sr_get_remove|intros m Hm; apply sr_get_remove_other; exact Hm].
+    + destruct Hr as [H1 H2]. rewrite rollback_removes_created in * by assumption.
+      cbn [forallb] in *. rewrite present_removed in *. rewrite andb_false_r in *. cbn [fst snd] in *.
+      rewrite rollback_unknown_id. split; [apply sr_get_remove|intros m Hm; apply sr_get_remove_other; exact Hm].
+Qed.
+
+(* as written, a creator whose first round hits a conflict can never commit: the partial rollback
+   has removed its store and the refetch of the retry does not find it *)
+Lemma creator_conflict_never_commits : forall s ok rest c n,
+  createStore <= s -> s <> addActivelyPersistedItem ->
+  snd (commit_loop (RoundConflict s ok :: rest) c [n]) = false.
+Proof.
+  intros s ok rest c n H1 H2. cbn [commit_loop]. rewrite rollback_removes_created by assumption.
+  cbn [forallb]. rewrite present_removed, andb_false_r. reflexivity.
+Qed.
